@@ -66,6 +66,9 @@ pub enum OpK {
     BindJson { b: usize, vals: BTreeMap<String, V> },
     /// bind a simulator-owned function that ignores its arguments and returns `ret`
     BindFunc { b: usize, name: String, ret: V },
+    /// bind a simulator-owned macro that ignores its arguments and returns `ret` (C12 only:
+    /// the fresh twin does not know about macros)
+    BindMacro { b: usize, name: String, ret: V },
     /// exec `times` times; the twin runs on a fresh thread with `keys`; `minimal`: the twin
     /// context holds only the programs reachable from `name`
     Exec { c: usize, name: String, b: usize, times: u8, keys: [u8; 16], minimal: bool },
@@ -143,6 +146,7 @@ pub fn case_skeleton(case: &J) -> String {
                     OpK::Bind { .. } => 'b',
                     OpK::BindJson { .. } => 'j',
                     OpK::BindFunc { .. } => 'f',
+                    OpK::BindMacro { .. } => 'm',
                     OpK::Exec { .. } => 'X',
                     OpK::Clock { .. } => 'T',
                     OpK::Expect { .. } => 'E',
@@ -332,6 +336,12 @@ fn const_func(ret: V) -> &'static rscel::RsCelFunction {
     }))
 }
 
+/// a simulator-owned macro answering with a constant (leaked: a handful per run)
+fn const_macro(ret: V) -> &'static rscel::RsCelMacro {
+    let b: Box<rscel::RsCelMacro> = Box::new(move |_interp, _this, _args| ret.to_cel());
+    Box::leak(b)
+}
+
 fn guarded_exec(ctx: &mut CelContext, name: &str, b: &BindContext) -> (Outcome, u64) {
     let before = seams::clock_reads();
     let r = std::panic::catch_unwind(std::panic::AssertUnwindSafe(|| ctx.exec(name, b)));
@@ -478,6 +488,10 @@ fn client_main(keys: [u8; 16], ctxs: Ctxs, universe: Vec<String>, c09: bool, rx:
                 },
                 OpK::BindFunc { b, name, ret } => match binds.get_mut(&b) {
                     Some(x) => x.bind_func(&name, const_func(ret)),
+                    None => rep.skipped = true,
+                },
+                OpK::BindMacro { b, name, ret } => match binds.get_mut(&b) {
+                    Some(x) => x.bind_macro(&name, const_macro(ret)),
                     None => rep.skipped = true,
                 },
                 OpK::Exec { c, name, b, times, .. } => match (cs.get_mut(&c), binds.get(&b)) {
@@ -695,7 +709,7 @@ pub fn universe_of(case: &WorldCase) -> Vec<String> {
                     u.insert(i);
                 }
             }
-            OpK::Bind { name, .. } | OpK::BindFunc { name, .. } => {
+            OpK::Bind { name, .. } | OpK::BindFunc { name, .. } | OpK::BindMacro { name, .. } => {
                 u.insert(name.clone());
             }
             OpK::BindJson { vals, .. } => {
@@ -954,6 +968,9 @@ pub fn run_case(prop: WorldProp, case: &WorldCase) -> RunResult {
                     model.funcs.entry(*b).or_default().insert(name.clone(), ret.clone());
                     fire(&mut fired, "function_bound");
                 }
+            }
+            OpK::BindMacro { .. } => {
+                fire(&mut fired, "macro_bound");
             }
             OpK::BindJson { b, vals } => {
                 if rep.add_err.is_some() {
